@@ -63,6 +63,11 @@ def make_rows(r, n, idkind):
     for va in alike:
         for vb in alike:
             rows.append({'a': va, 'b': vb, 'c': va})
+    # an id carried by two rows (never a path target, so dereferencing stays well defined), and the look-alike id of the
+    # other kind: a comparison on `id` is a comparison like any other, row by row
+    rows.append({'id': mkid('dup'), 'a': NUM(1), 'c': D.MARKER})
+    rows.append({'id': mkid('dup'), 'a': NUM(2), 'b': ('str', 'm')})
+    rows.append({'id': ('str', '@dup') if idkind == 'ref' else ('ref', 'dup', None), 'a': NUM(3)})
     maxlen = max(len(POOL['a']), n)
     for i in range(maxlen):
         row = {}
@@ -110,6 +115,8 @@ def atoms_all():
     for lk in EXTRA_LITS:
         for op in ('==', '!=', '<', '>='):
             A.append(('cmp', op, ['a'], LITS[lk]))
+    A += [('cmp', '==', ['id'], ('ref', 'dup', None)), ('cmp', '==', ['id'], ('ref', 'x', None)), ('cmp', '==', ['id'], ('str', 'dup')),
+          ('cmp', '==', ['id'], ('str', '@dup')), ('cmp', '==', ['id'], ('ref', 'nowhere', None)), ('has', ['id']), ('not', ['id'])]
     A += [('has', ['r', 'a']), ('not', ['r', 'a']), ('has', ['r']), ('not', ['r']), ('has', ['r', 'r', 'a']),
           ('cmp', '==', ['r', 'a'], LITS['num']), ('cmp', '<', ['r', 'a'], LITS['qty']), ('cmp', '!=', ['r', 'b'], LITS['str']),
           ('cmp', '==', ['r'], LITS['ref']), ('cmp', '==', ['r', 'r'], ('ref', 'y', None)), ('cmp', '!=', ['r', 'r'], ('ref', 'x', None)),
